@@ -120,6 +120,15 @@ def stepD (d : DState) (toks : List String) : DState × String :=
     let y := IstioModel.C04.step d.ty d.sys (.serverRecv (dec n) (tokBool deliver)); let y := { y with srv := normalize y.srv }; ({ d with sys := y }, showSys y)
   | ["spush", n] =>
     let y := IstioModel.C04.step d.ty d.sys (.serverPush (dec n)); let y := { y with srv := normalize y.srv }; ({ d with sys := y }, showSys y)
+  | ["other", ty, names, nonce] =>
+    -- a request of ANOTHER type arrives on the same stream (the real NewWatchedResource: a new CDS watch marks EDS)
+    match Ty.ofTok ty with
+    | none => (d, "bad-op")
+    | some t2 =>
+      let srv := match shouldRespond d.sys.srv { ty := t2, names := decList names, nonce := dec nonce, err := none } with
+        | .out _ _ s' => s'
+        | .crash => d.sys.srv
+      let y := { d.sys with srv := normalize srv }; ({ d with sys := y }, showSys y)
   | ["always"] =>
     let y := IstioModel.C04.step d.ty d.sys .envAlways; let y := { y with srv := normalize y.srv }; ({ d with sys := y }, showSys y)
   | _ => let (s', o) := stepBasic d.st toks; ({ d with st := normalize s' }, o)
